@@ -6,6 +6,7 @@ import LsModel.DriverTxn
 import LsModel.DriverCleaner
 import LsModel.DriverCfg
 import LsModel.DriverName
+import LsModel.DriverSweep
 /- lsdriver: one operation per input line, exactly one canonical output line per operation. -/
 open Ls.Drv
 
@@ -13,7 +14,7 @@ open Ls.Drv
 def handlers : List (String → List String → Option String) := [opHeader, opMerge, opC02, opStrat, opDup, opCfg, opName]
 
 /-- operations that read or update the driver state -/
-def statefulHandlers : List (String → List String → DrvState → Option (DrvState × String)) := [opTxn, opCleaner]
+def statefulHandlers : List (String → List String → DrvState → Option (DrvState × String)) := [opTxn, opSweep, opCleaner]
 
 def step (st : DrvState) (line : String) : DrvState × String :=
   match (line.trimAscii.toString.split (· == ' ')).toList.map (·.toString) |>.filter (· ≠ "") with
